@@ -47,7 +47,9 @@ def warm():
     # the model's validators read the engine database through the configuration
     from AEIC.config import Config
 
-    repo_root = os.path.dirname(os.path.dirname(os.path.dirname(pkg)))
+    # test data (weather file) always comes from the repository itself, also when the
+    # sources under test are a scratch copy (VERIF_AEIC_SRC)
+    repo_root = os.environ.get('VERIF_REPO', '/repo')
     _REPO_TESTS_WEATHER = os.path.join(repo_root, 'tests', 'data', 'weather')
     os.environ['AEIC_PATH'] = os.path.join(repo_root, 'tests', 'data')
     Config.load()
